@@ -539,56 +539,19 @@ theorem step_acked (s : St) (op : Op) (p : Nat) (hm : Out.report p .acked ∈ (s
 
 /-! ### the inbound counter -/
 
-theorem step_lastIn (s : St) (op : Op) :
-    (step s op).1.lastIn =
-      if op.isEnabledNew then 0 else if op.isRecvStanza then s.lastIn + 1 else s.lastIn := by
-  cases op <;> simp only [step, Op.isEnabledNew, Op.isRecvStanza] <;> (try split) <;> simp_all
-
-/-- stanzas received after the last `enabledNew`, computed on the reversed history; `c` is the value
-to start from when there is no `enabledNew` at all -/
-def countRev (c : Nat) : List Op → Nat
-  | [] => c
-  | op :: rest =>
-    if op.isEnabledNew then 0 else if op.isRecvStanza then countRev c rest + 1 else countRev c rest
-
-theorem countRev_zero (r : List Op) :
-    countRev 0 r = (r.takeWhile fun o => !o.isEnabledNew).countP Op.isRecvStanza := by
-  induction r with
-  | nil => rfl
-  | cons op rest ih =>
-    simp only [countRev, List.takeWhile_cons]
-    by_cases h1 : op.isEnabledNew
-    · simp [h1]
-    · simp only [h1, Bool.false_eq_true, if_false, Bool.not_false, if_true, List.countP_cons, ih]
-      split <;> simp
-
-theorem run_lastIn (ops : List Op) : ∀ s : St, (run s ops).1.lastIn = countRev s.lastIn ops.reverse := by
-  suffices h : ∀ (r : List Op) (s : St), (run s r.reverse).1.lastIn = countRev s.lastIn r by
-    intro s; simpa using h ops.reverse s
-  intro r
-  induction r with
-  | nil => intro s; rfl
-  | cons op rest ih =>
-    intro s
-    rw [List.reverse_cons, run_append]
-    simp only [run, step_lastIn, ih, countRev]
-
-/-! ### the stricter per-session count -/
-
-theorem step_sessionCount (s : St) (c : Bool × Nat × Nat) (op : Op)
-    (h1 : c.1 = s.enabled) (h2 : s.lastIn = c.2.1 + c.2.2) :
+theorem step_sessionCount (s : St) (c : Bool × Nat) (op : Op)
+    (h1 : c.1 = s.enabled) (h2 : s.lastIn = c.2) :
     (sessionCountStep c op).1 = (step s op).1.enabled ∧
-      (step s op).1.lastIn = (sessionCountStep c op).2.1 + (sessionCountStep c op).2.2 := by
+      (step s op).1.lastIn = (sessionCountStep c op).2 := by
   cases op with
   | send stanza up => simp only [step, sessionCountStep]; split <;> exact ⟨h1, h2⟩
   | ack h => simp only [step, sessionCountStep]; split <;> exact ⟨h1, h2⟩
   | ackReq up => exact ⟨h1, h2⟩
   | recv k =>
     simp only [step, sessionCountStep]
+    rw [h1]
     split
-    · split
-      · exact ⟨h1, by simp only; omega⟩
-      · exact ⟨h1, by simp only; omega⟩
+    · exact ⟨rfl, by simp only; omega⟩
     · exact ⟨h1, h2⟩
   | sessionClosed => exact ⟨rfl, h2⟩
   | enabledNew up => exact ⟨rfl, rfl⟩
@@ -596,10 +559,10 @@ theorem step_sessionCount (s : St) (c : Bool × Nat × Nat) (op : Op)
   | resumed h up => exact ⟨rfl, h2⟩
   | resetCache => exact ⟨h1, h2⟩
 
-theorem run_sessionCount (ops : List Op) : ∀ (s : St) (c : Bool × Nat × Nat),
-    c.1 = s.enabled → s.lastIn = c.2.1 + c.2.2 →
+theorem run_sessionCount (ops : List Op) : ∀ (s : St) (c : Bool × Nat),
+    c.1 = s.enabled → s.lastIn = c.2 →
     (ops.foldl sessionCountStep c).1 = (run s ops).1.enabled ∧
-      (run s ops).1.lastIn = (ops.foldl sessionCountStep c).2.1 + (ops.foldl sessionCountStep c).2.2 := by
+      (run s ops).1.lastIn = (ops.foldl sessionCountStep c).2 := by
   induction ops with
   | nil => intro s c h1 h2; exact ⟨h1, h2⟩
   | cons op ops ih =>
